@@ -92,6 +92,9 @@ def guards(prog, em, ty, full):
         syms = [x for x in sy if isinstance(x, str)] + [y for x in sy if isinstance(x, tuple) and x[0] in ('ALT', 'STAR') for alt in x[1] for y in alt if isinstance(y, str)] \
             + [y for x in sy if isinstance(x, tuple) and x[0] == 'SUB' for y in x[1].alphabet() if isinstance(y, str)]
         facts = s.facts
+        if s.src[0] == 'entry' and s.kind == 'loop' and s.dst in em.composite_rx:
+            # the optional parts are printed by the loop over a composite iterator built on this path (chain of Option values)
+            syms = syms + sorted(emit.ast_syms(em.composite_rx[s.dst]))
         if s.src[0] == 'entry':
             for i, role in opt_fields:
                 tag = None
@@ -127,6 +130,8 @@ def guards(prog, em, ty, full):
                 continue
             it, k = ev[1], ev[2]
             tag = facts.get(('tag', ('has', it, k)))
+            if it in em.composite_ok:
+                continue          # a composite iterator (chain / flat_map / once): its element sequence is part of the emission automaton itself
             src = em.iter_source(s.state, it)
             nm = em.role_name(src + (('elem',),)) if src is not None else None
             if nm is None:
